@@ -26,14 +26,14 @@ const ruleC28 = "rapid-generated request sequences (8-40 requests per case) serv
 
 type c28Ctx struct {
 	rawtxs []string // encoded transactions: confirmed ones of every block (the first spends the genesis output), pooled ones
-	t     *rapid.T
-	n     *liveNode
-	tm    *nodeTemplate
-	addrs []string
-	txids []string
-	uxids []string
-	bhash []string
-	wids  []string
+	t      *rapid.T
+	n      *liveNode
+	tm     *nodeTemplate
+	addrs  []string
+	txids  []string
+	uxids  []string
+	bhash  []string
+	wids   []string
 }
 
 var hostileStrings = []string{"", " ", "0", "-1", "abc", "null", "true", "1e3", "1e999999999", "0x10", "18446744073709551615", "18446744073709551616", "9223372036854775808", "-9223372036854775809", "1.5", "٣", "é\u0000x", "%00", "../../etc/passwd", "'; DROP TABLE", "\xff\xfe", strings.Repeat("9", 400), strings.Repeat("A", 20000)}
@@ -102,11 +102,11 @@ func (c *c28Ctx) val(class string) string {
 	case "bhash":
 		good = c.pick("bhash", c.bhash)
 	case "seq":
-		good = c.pick("seq", []string{"0", "1", "3", "7", "8", "100"})
+		good = c.pick("seq", []string{"0", "1", "3", "7", "8", "100", "4294967296", "9223372036854775807", "18446744073709551615"})
 	case "seqs":
-		good = c.pick("seqs", []string{"0,1,2", "7", "1,1,1", "3,99", "7,6,5,4,3,2,1,0"})
+		good = c.pick("seqs", []string{"0,1,2", "7", "1,1,1", "3,99", "7,6,5,4,3,2,1,0", "18446744073709551615,0", "1,4294967296"})
 	case "num":
-		good = c.pick("num", []string{"0", "1", "3", "100", "1000000"})
+		good = c.pick("num", []string{"0", "1", "3", "100", "1000000", "4294967296", "9223372036854775807", "18446744073709551615"})
 	case "smallnum": // numbers that make the node derive addresses: bounded (cost), see assumptions
 		good = c.pick("smallnum", []string{"0", "1", "2", "5", "10"})
 		if mode >= 6 {
@@ -399,6 +399,9 @@ func (c *c28Ctx) collectLive() {
 	c.wids = []string{"det.wlt", "bip.wlt", "enc.wlt", "col.wlt", "det.wlt", "nosuch.wlt", "../wallets/det.wlt", "det"}
 }
 
+// requests confirmed to hang (see the hang rule in TestC28_NoRequestCrashesTheNode)
+var knownHang = map[string]bool{}
+
 type served struct {
 	code int
 	hdr  http.Header
@@ -437,7 +440,7 @@ func TestC28_NoRequestCrashesTheNode(t *testing.T) {
 	r.Assume("cost bounds of the harness, not of the property: parameters that make the node derive addresses (scan, num) are at most 10 when numeric; wallets use the sha256-xor cipher; a request that does not return within 20 s is retried on a fresh node twice before it is reported")
 	tm, err := getTemplate()
 	if err != nil {
-		t.Skipf("HARNESS-SETUP-FAILED node template: %v", err) // a harness problem is never a verdict about the property
+		setupFailed(t, "node template: %v", err) // a harness problem is never a verdict about the property
 	}
 	hx.Check(t, "C28", 600, 20000, func(t *rapid.T) {
 		n, err := startNode(tm)
@@ -575,8 +578,14 @@ func TestC28_NoRequestCrashesTheNode(t *testing.T) {
 				}
 				return strings.Join(log[from:], "\n   ")
 			}
+			if knownHang[line] {
+				// confirmed earlier in this process on three nodes; not served again while rapid minimises the case
+				// (each hung handler keeps spinning or holding the database, which would starve the run)
+				t.Fatalf("request did not return within 20 s (and within 40 s on two fresh nodes): %s", line)
+			}
 			s := n.serve(mk(), 20*time.Second)
 			if s.hung {
+				n.wedged = true
 				// confirm on fresh nodes before blaming the request (a loaded machine is not a hang)
 				confirmed := 0
 				for a := 0; a < 2; a++ {
@@ -587,10 +596,12 @@ func TestC28_NoRequestCrashesTheNode(t *testing.T) {
 					s2 := n2.serve(mk(), 40*time.Second)
 					if s2.hung {
 						confirmed++
+						n2.wedged = true
 					}
 					go n2.stop()
 				}
 				if confirmed == 2 {
+					knownHang[line] = true
 					t.Fatalf("request did not return within 20 s (and within 40 s on two fresh nodes): %s", line)
 				}
 				r.Count("slow_not_reproduced")
@@ -635,7 +646,7 @@ func TestC28_VerifyAnyTransactionReturnsAVerdict(t *testing.T) {
 	r := ev.Get("C28")
 	tm, err := getTemplate()
 	if err != nil {
-		t.Skipf("HARNESS-SETUP-FAILED node template: %v", err) // a harness problem is never a verdict about the property
+		setupFailed(t, "node template: %v", err) // a harness problem is never a verdict about the property
 	}
 	n, err := startNode(tm)
 	if err != nil {
